@@ -52,13 +52,15 @@ def enum_domain(e):
         allbits = 0
         for v in vals:
             allbits |= v
-        undefined = next(b for b in (1 << i for i in range(64)) if not allbits & b and b <= hi)
-        d.append(undefined)             # only an undefined bit
-        d.append(vals[0] | undefined)   # defined + undefined bit
+        undefined = next((b for b in (1 << i for i in range(64)) if not allbits & b and b <= hi), None)
+        if undefined is not None:           # every bit of the base type may be defined
+            d.append(undefined)             # only an undefined bit
+            d.append(vals[0] | undefined)   # defined + undefined bit
         return d
     d = list(vals)
-    undefined = next(x for x in range(0, 300) if x not in vals and lo <= x <= hi)
-    d.append(undefined)
+    undefined = next((x for x in range(0, 1000) if x not in vals and lo <= x <= hi), None)
+    if undefined is not None:
+        d.append(undefined)
     if lo < 0 and -7 not in vals:
         d.append(-7)
     return d
